@@ -110,11 +110,27 @@ impl DatabaseContext for &Server {
     }
 }
 
+// "." and ".." segments folded, no trailing slash: a library path such as "./notes" or "." must
+// give the same prefix as the paths an editor sends
+fn normalize_path(path: &str) -> String {
+    let mut segments: Vec<&str> = vec![];
+    for segment in path.split('/') {
+        match segment {
+            "" | "." => {}
+            ".." => {
+                segments.pop();
+            }
+            other => segments.push(other),
+        }
+    }
+    format!("/{}", segments.join("/")).trim_end_matches('/').to_string()
+}
+
 impl Server {
     pub fn new(config: ServerConfig) -> Server {
         Server {
             base_path: BasePath {
-                base_path: format!("file://{}/", config.base_path.trim_end_matches('/')),
+                base_path: format!("file://{}/", normalize_path(&config.base_path)),
             },
             database: Database::new(
                 config.state,
